@@ -20,7 +20,12 @@ BOPS = {
     "get": ("BGet", "nn"), "getall": ("BGetAll", ""), "neg": ("BNeg", ""), "add": ("BAdd", "b"), "sub": ("BSub", "b"),
     "scale": ("BScale", "s"), "div": ("BDiv", "s"), "mulv": ("BMulV", "v"), "solve": ("BSolve", "v"),
     "det": ("BDet", ""), "size": ("BSize", ""), "dump": ("BDump", ""),
+    # both operands the same object (&B + &B, &B - &B): the model's operator applied to two copies of the current state
+    "add_self": ("BAdd", ""), "sub_self": ("BSub", ""),
 }
+SELF_OPS = ("add_self", "sub_self")
+MUTATING = ("new", "fill", "resize", "fill_band", "set", "add_assign", "sub_assign", "add_assign_own", "sub_assign_own",
+            "mul_assign_s", "div_assign_s", "add_assign_s", "sub_assign_s")
 
 def tok_band(elt, B):
     n, m1, m2, vals = B
@@ -57,7 +62,16 @@ def bhist_line(elt, B, ops):
     return "band.hist " + tok_band(elt, B) + " " + " ".join(bop_line(elt, o) for o in ops)
 
 def bhist_term(elt, B, ops):
-    return "@band_hist %s %s %s %s" % (ARITH[elt], FLAT[elt], coq_band(elt, B), coq_list([bop_coq(elt, o) for o in ops]))
+    parts = []
+    clean = True          # no mutating operation so far: the current state is the literal B
+    for o in ops:
+        if o[0] in SELF_OPS:
+            if not clean: raise ValueError("same-object operators are generated on the initial state only")
+            parts.append("(@%s %s %s)" % (BOPS[o[0]][0], ARITH[elt], coq_band(elt, B)))
+        else:
+            parts.append(bop_coq(elt, o))
+            if o[0] in MUTATING: clean = False
+    return "@band_hist %s %s %s %s" % (ARITH[elt], FLAT[elt], coq_band(elt, B), coq_list(parts))
 
 # ------------------------------------------------------------------ the dense twin
 def in_band(m1, m2, i, j):
@@ -171,6 +185,8 @@ class Ref:
             R = [[D[i][j] + sg * E[i][j] for j in range(n)] for i in range(n)]
             if name in ("add", "sub"): return ('D', R)
             self.D = R; return (None, None)
+        if name == "add_self": return ('D', [[x + x for x in r] for r in D])
+        if name == "sub_self": return ('D', [[x - x for x in r] for r in D])
         if name in ("mul_assign_s", "scale"):
             R = [[x * a[0] for x in r] for r in D]
             if name == "scale": return ('D', R)
@@ -242,7 +258,7 @@ def dense_close(elt, D, E, tol=1e-11):
 SOLVE_BACKWARD = 1e-11
 COND_LIMIT = 1e8
 
-VALUE_SHAPE = {"get": "s", "det": "s", "mulv": "v", "solve": "v", "neg": "B", "add": "B", "sub": "B", "scale": "B", "div": "B",
+VALUE_SHAPE = {"get": "s", "det": "s", "mulv": "v", "solve": "v", "neg": "B", "add": "B", "sub": "B", "scale": "B", "div": "B", "add_self": "B", "sub_self": "B",
                "dump": "B", "size": "n", "getall": "all"}
 
 def skip_value(op, items, pos, elt, n):
